@@ -1,7 +1,12 @@
 """pytest plugin (-p vlib.pytest_boot): installs the monitored library loader before the repository's test modules import
 the C libraries, so the repository's own tests run against the build selected by VERIF_VARIANT under the ctypes
 boundary monitor."""
+import os
+
 from vlib import boot  # noqa: F401
+
+if os.environ.get("VERIF_BOOT_STRICT"):
+    boot.MODE["strict"] = True
 
 
 def pytest_sessionfinish(session, exitstatus):
